@@ -14,9 +14,15 @@ try:
     if "--clean" in sys.argv:
         H.sh(["make", "clean"], 300, cwd=str(H.COQ))
         H.project_sync()
-    out = H.make([], timeout=3000)
+    with H.Lock():
+        H.project_sync()
+        rc, out = H.sh(["make", "-k", "-j%d" % H.NCPU], 3400, cwd=str(H.COQ))
 except H.BuildError as e:
     print(e.what)
     print((e.log or "")[-6000:])
     sys.exit(1)
-print("setup: full build ok in %.0fs" % (time.time() - t0))
+if rc != 0:
+    # every check rebuilds its own cone and reports a broken obligation itself; setup only warms the build
+    print("setup: some files did not build (each check reports its own cone):")
+    print("\n".join(l for l in out.split("\n") if "Error" in l or "File \"" in l or "***" in l)[-3000:])
+print("setup: build finished in %.0fs (rc=%d)" % (time.time() - t0, rc))
